@@ -24,6 +24,7 @@ const (
 	KIface   = "iface"   // interface{} literal
 	KTParam  = "tparam"  // a bare type parameter A of the enclosing generic struct
 	KForeign = "foreign" // a defined scalar type of another package: time.Duration
+	KAlias   = "alias"   // a type declared as an alias: A = a same-package alias declaration, or ext.<Name> (sibling package ext)
 	// outside the property's domain (separate stream; only "does not crash" is observed, never flagged)
 	KPtr       = "ptr"       // *A, A a same-package struct
 	KSliceOf   = "sliceof"   // []A, A a same-package named type
@@ -45,6 +46,7 @@ const (
 	DMap    = "map"
 	DScalar = "scalar"
 	DIface  = "iface"
+	DAlias  = "alias" // type Name = <Of>: no type of its own (identical to the type it denotes); never tagged
 )
 
 type Decl struct {
@@ -58,6 +60,65 @@ type Decl struct {
 	Elem    string   `json:"elem,omitempty"`    // map
 	Base    string   `json:"base,omitempty"`    // scalar
 	Strs    bool     `json:"strs,omitempty"`    // a hand-written String() method on the type (method scan sees it first)
+	Of      *Field   `json:"of,omitempty"`      // alias: the type it denotes (the field's name is not used)
+}
+
+// extAliases: the alias declarations of the sibling package example.com/c17m/ext (written when a field refers to one)
+var extAliases = map[string]Field{
+	"ext.Items": {K: KSlice, A: "int"},
+	"ext.Words": {K: KSlice, A: "string"},
+	"ext.Index": {K: KMap, A: "string", B: "int"},
+	"ext.Flags": {K: KMap, A: "int64", B: "bool"},
+	"ext.Count": {K: KBasic, A: "int"},
+	"ext.Span":  {K: KForeign},
+}
+
+const extSource = `package ext
+
+import "time"
+
+type (
+	Items = []int
+	Words = []string
+	Index = map[string]int
+	Flags = map[int64]bool
+	Count = int
+	Span  = time.Duration
+)
+`
+
+// resolve: the field with its type as go/types identifies it: aliases looked through (an alias and the type it denotes are
+// identical types), the name kept.  A dangling or cyclic alias resolves to itself.
+func (in *Input) resolve(f Field) Field {
+	for fuel := len(in.Decls) + 2; f.K == KAlias && fuel > 0; fuel-- {
+		var t *Field
+		if e, ok := extAliases[f.A]; ok {
+			t = &e
+		} else if d := in.decl(f.A); d != nil && d.Kind == DAlias && d.Of != nil {
+			t = d.Of
+		}
+		if t == nil {
+			return f
+		}
+		r := *t
+		r.Name = f.Name
+		f = r
+	}
+	return f
+}
+
+func (in *Input) usesExt() bool {
+	for _, d := range in.Decls {
+		if d.Of != nil && d.Of.K == KAlias && strings.HasPrefix(d.Of.A, "ext.") {
+			return true
+		}
+		for _, f := range d.Fields {
+			if f.K == KAlias && strings.HasPrefix(f.A, "ext.") {
+				return true
+			}
+		}
+	}
+	return false
 }
 
 type Input struct {
@@ -67,6 +128,17 @@ type Input struct {
 	// ShadowPkg: name of a sibling package declaring `type Item int`; slice/map fields may use <ShadowPkg>.Item as
 	// element type (A resp. B = "<ShadowPkg>.Item").  o, i, in, out, key, val collide with the template locals.
 	ShadowPkg string `json:"shadow_pkg,omitempty"`
+	// Base: GeneratorArgs.OutputFileBaseName of every run ("" = the conventional "zz_generated"); the generated file is
+	// <Base>.deepcopy.go.  The name must not be a prefix of a hand-written file's name (gengo sweeps "<Base>.*" files it
+	// did not write), i.e. not "types" or "doc".
+	Base string `json:"base,omitempty"`
+}
+
+func (in *Input) base() string {
+	if in.Base == "" {
+		return "zz_generated"
+	}
+	return in.Base
 }
 
 func (in *Input) decl(name string) *Decl {
@@ -80,7 +152,7 @@ func (in *Input) decl(name string) *Decl {
 
 func (in *Input) hasIfaces() bool {
 	for _, d := range in.Decls {
-		if d.Ifaces {
+		if d.Ifaces && d.Kind != DAlias {
 			return true
 		}
 	}
@@ -93,8 +165,8 @@ func (in *Input) enabled(d *Decl) bool { return in.PkgTag || d.Tag || d.Ifaces }
 func (in *Input) InDomain() bool {
 	for _, d := range in.Decls {
 		for _, f := range d.Fields {
-			switch f.K {
-			case KPtr, KSliceOf, KSliceSl, KForeignSt:
+			switch in.resolve(f).K {
+			case KPtr, KSliceOf, KSliceSl, KForeignSt, KAlias:
 				return false
 			}
 		}
@@ -104,7 +176,7 @@ func (in *Input) InDomain() bool {
 
 func fieldTypeSrc(f Field, shadow string) string {
 	switch f.K {
-	case KBasic, KTParam:
+	case KBasic, KTParam, KAlias:
 		return f.A
 	case KSlice:
 		return "[]" + f.A
@@ -153,6 +225,9 @@ func (in *Input) Source() map[string]string {
 				usesTime = true
 			}
 		}
+		if d.Of != nil && (d.Of.K == KForeign || d.Of.K == KForeignSt) {
+			usesTime = true
+		}
 	}
 	usesShadow := false
 	for _, d := range in.Decls {
@@ -168,15 +243,18 @@ func (in *Input) Source() map[string]string {
 	if usesShadow && in.ShadowPkg != "" {
 		fmt.Fprintf(&b, "import \"example.com/c17m/%s\"\n\n", in.ShadowPkg)
 	}
+	if in.usesExt() {
+		b.WriteString("import \"example.com/c17m/ext\"\n\n")
+	}
 	b.WriteString("var Keep = 0\n\n")
 	if in.hasIfaces() {
 		b.WriteString("type Object interface {\n\tDeepCopyObject() Object\n}\n\n")
 	}
 	for _, d := range in.Decls {
-		if d.Tag {
+		if d.Tag && d.Kind != DAlias {
 			b.WriteString("// +gengo:deepcopy\n")
 		}
-		if d.Ifaces {
+		if d.Ifaces && d.Kind != DAlias {
 			b.WriteString("// +gengo:deepcopy:interfaces=Object\n")
 		}
 		switch d.Kind {
@@ -200,8 +278,14 @@ func (in *Input) Source() map[string]string {
 			fmt.Fprintf(&b, "type %s %s\n\n", d.Name, d.Base)
 		case DIface:
 			fmt.Fprintf(&b, "type %s interface {\n\tString() string\n}\n\n", d.Name)
+		case DAlias:
+			of := Field{K: KBasic, A: "int"}
+			if d.Of != nil {
+				of = *d.Of
+			}
+			fmt.Fprintf(&b, "type %s = %s\n\n", d.Name, fieldTypeSrc(of, in.ShadowPkg))
 		}
-		if d.Strs && d.Kind != DIface && len(d.TParams) == 0 {
+		if d.Strs && d.Kind != DIface && d.Kind != DAlias && len(d.TParams) == 0 {
 			fmt.Fprintf(&b, "func (%s) String() string { return %q }\n\n", d.Name, d.Name)
 		}
 	}
@@ -213,6 +297,9 @@ func (in *Input) Source() map[string]string {
 func (in *Input) sortedNames() []string {
 	var ns []string
 	for _, d := range in.Decls {
+		if d.Kind == DAlias {
+			continue // deepcopy is no AliasGenerator: doGenerate passes alias type names by
+		}
 		ns = append(ns, d.Name)
 	}
 	if in.hasIfaces() {
